@@ -186,7 +186,7 @@ impl SubCheckT for Orders {
         tier.pick(12_000, 150_000)
     }
     fn strategy(_tier: Tier) -> BoxedStrategy<OrderCase> {
-        (cnf_strategy(), order_keys_strategy(), any::<u8>())
+        (prop_oneof![60 => cnf_strategy(), 1 => big_cnf_strategy()], order_keys_strategy(), any::<u8>())
             .prop_map(|(cnf, perm_keys, extra)| OrderCase { cnf, perm_keys, extra })
             .boxed()
     }
@@ -399,7 +399,7 @@ impl SubCheckT for Dtrees {
         tier.pick(12_000, 150_000)
     }
     fn strategy(_tier: Tier) -> BoxedStrategy<DtreeCase> {
-        (cnf_strategy(), 0u8..4, order_keys_strategy())
+        (prop_oneof![60 => cnf_strategy(), 1 => big_cnf_strategy()], 0u8..4, order_keys_strategy())
             .prop_map(|(cnf, order_kind, perm_keys)| DtreeCase {
                 cnf,
                 order_kind,
@@ -415,6 +415,13 @@ impl SubCheckT for Dtrees {
 // ---------------------------------------------------------------------------
 // vtree manager
 // ---------------------------------------------------------------------------
+
+/// vtrees with 17..150 leaves (Euler tours beyond 64 and 256 entries), random shapes and leaf orders
+fn big_vtree_case_strategy() -> BoxedStrategy<VtreeCase> {
+    (17u8..=150, proptest::collection::vec(any::<u16>(), 150), 0u8..5, proptest::collection::vec(any::<u16>(), 150))
+        .prop_map(|(k, keys, kind, splits)| VtreeCase { k, keys, kind, splits, stride: 1, offset: 0 })
+        .boxed()
+}
 
 pub struct Manager;
 
@@ -588,6 +595,8 @@ pub fn run_manager(case: &VtreeCase, st: &mut Stats) -> CaseResult {
     st.flag("vtree.right_linear", shape.is_right_linear_everywhere());
     st.flag("vtree.left_linear", shape.is_left_linear_everywhere());
     st.flag("vtree.sparse_labels", !case.contiguous());
+    st.flag("vtree.more_than_16_leaves", leaves.len() > 16);
+    st.flag("vtree.more_than_64_leaves", leaves.len() > 64);
     if k >= 4 && !shape.is_right_linear_everywhere() && !shape.is_left_linear_everywhere() {
         st.mark_nontrivial();
     }
@@ -597,12 +606,12 @@ pub fn run_manager(case: &VtreeCase, st: &mut Stats) -> CaseResult {
 impl SubCheckT for Manager {
     type Case = VtreeCase;
     const NAME: &'static str = "vtree_manager";
-    const RULE: &'static str = "random vtrees with 1..12 leaves (right-linear, left-linear, balanced, random splits; labels a permutation of 0..k-1, sometimes non-contiguous): var_index = in-order position, vtree(idx) = that subtree, lca for all node pairs, is_prime_index / is_prime_var / is_prime on literals and on decision nodes built over the vtree = the relation read off the shape (x is in the left part at the least common ancestor), num_vars = number of leaves. Non-trivial: >=4 leaves and neither right- nor left-linear";
+    const RULE: &'static str = "random vtrees with 1..12 leaves, and now and then 17..150 leaves (right-linear, left-linear, balanced, random splits; labels a permutation of 0..k-1, sometimes non-contiguous): var_index = in-order position, vtree(idx) = that subtree, lca for all node pairs, is_prime_index / is_prime_var / is_prime on literals and on decision nodes built over the vtree = the relation read off the shape (x is in the left part at the least common ancestor), num_vars = number of leaves. Non-trivial: >=4 leaves and neither right- nor left-linear";
     fn cases(tier: Tier) -> u32 {
         tier.pick(12_000, 150_000)
     }
     fn strategy(_tier: Tier) -> BoxedStrategy<VtreeCase> {
-        vtree_case_strategy(12, true)
+        prop_oneof![80 => vtree_case_strategy(12, true), 1 => big_vtree_case_strategy()].boxed()
     }
     fn run(case: &VtreeCase, st: &mut Stats) -> CaseResult {
         run_manager(case, st)
@@ -640,19 +649,27 @@ pub fn run_lca(case: &VtreeCase, st: &mut Stats) -> CaseResult {
         }
         i += 1;
     }
-    let anc = |mut x: usize| {
-        let mut v = vec![x];
-        while let Some(p) = nodes[x].1 {
-            v.push(p);
-            x = p;
+    // depth of every node, then the textbook climb: lift the deeper node, then both, until they meet
+    let mut depth = vec![0usize; nodes.len()];
+    for x in 1..nodes.len() {
+        depth[x] = depth[nodes[x].1.unwrap()] + 1;
+    }
+    let climb = |mut a: usize, mut b: usize| -> usize {
+        while depth[a] > depth[b] {
+            a = nodes[a].1.unwrap();
         }
-        v
+        while depth[b] > depth[a] {
+            b = nodes[b].1.unwrap();
+        }
+        while a != b {
+            a = nodes[a].1.unwrap();
+            b = nodes[b].1.unwrap();
+        }
+        a
     };
     for a in 0..nodes.len() {
-        let aa = anc(a);
         for b in 0..nodes.len() {
-            let ab = anc(b);
-            let want = *aa.iter().find(|x| ab.contains(x)).unwrap();
+            let want = climb(a, b);
             let got = lca.lca(a, b);
             ensure!(
                 got == want,
@@ -665,6 +682,8 @@ pub fn run_lca(case: &VtreeCase, st: &mut Stats) -> CaseResult {
             );
         }
     }
+    st.flag("lca.more_than_33_nodes", nodes.len() > 33);
+    st.flag("lca.more_than_129_nodes", nodes.len() > 129);
     if nodes.len() >= 7 && !shape.is_right_linear_everywhere() && !shape.is_left_linear_everywhere() {
         st.mark_nontrivial();
     }
@@ -674,12 +693,12 @@ pub fn run_lca(case: &VtreeCase, st: &mut Stats) -> CaseResult {
 impl SubCheckT for Lca {
     type Case = VtreeCase;
     const NAME: &'static str = "btree_lca";
-    const RULE: &'static str = "LeastCommonAncestor built on random binary trees (1..12 leaves) and queried for all ordered pairs of breadth-first indices against the ancestor-chain definition. Non-trivial: >=7 nodes, neither linear shape";
+    const RULE: &'static str = "LeastCommonAncestor built on random binary trees (1..12 leaves, now and then 17..150 leaves) and queried for all ordered pairs of breadth-first indices against the ancestor-chain definition. Non-trivial: >=7 nodes, neither linear shape";
     fn cases(tier: Tier) -> u32 {
         tier.pick(8000, 100_000)
     }
     fn strategy(_tier: Tier) -> BoxedStrategy<VtreeCase> {
-        vtree_case_strategy(12, false)
+        prop_oneof![80 => vtree_case_strategy(12, false), 1 => big_vtree_case_strategy()].boxed()
     }
     fn run(case: &VtreeCase, st: &mut Stats) -> CaseResult {
         run_lca(case, st)
@@ -692,7 +711,7 @@ pub fn property() -> Property {
         subs: vec![sub::<Orders>(), sub::<Dtrees>(), sub::<Manager>(), sub::<Lca>()],
         fuzz: vec![],
         assumptions: vec![
-            "CNFs over <= 7 variables; vtrees with <= 12 leaves",
+            "CNFs over <= 7 variables, and in about 2 % of the order / dtree cases 20..130 variables; vtrees with <= 12 leaves, and in about 1 % of the cases 17..150 leaves",
             "excluded by construction and counted: CNFs without clauses for DTree::from_cnf (asserted by the library) and for force_order (its loop never terminates on NaN: a hang is reported as inconclusive, not as a violation); CNFs with an empty clause for force_order (usize underflow in the span computation, outside the listed domain)",
             "for non-contiguous leaf labels VTreeManager::num_vars may be the leaf count or largest label + 1 (doc comment and VTree::num_vars disagree)",
         ],
